@@ -12,7 +12,8 @@ two-way rounds (`b←a; a←b`) needed to converge with the number of disagreein
     && leanc -O2 -o /tmp/scan /tmp/scan.c .lake/build/ir/MstVerif/Model/{Tree,Traverse,Diff,Sync}.c.o.export \
     && /tmp/scan 4 3
 
-Result when `C05_rounds_join` was proved: `nk=4 nl=3 total=5308416 bad=0 worstRounds=2`
+Results when `C05_rounds_join` was proved: `nk=4 nl=3 total=5308416 bad=0 worstRounds=2`,
+`nk=5 nl=2 total=33554432 bad=0 worstRounds=2` (15 minutes)
 (bad = pairs needing more rounds than disagreeing keys, or not converging / panicking).
 -/
 import MstVerif.Model.Sync
